@@ -115,13 +115,13 @@ def _imports() -> _Real:
             super().__init__("fake-" + name)
             self.nm = name
 
-        def get_candidates(self, req):
+        def get_candidates(self, req=None, *args, **kwargs):
             return []
 
-        def resolve_candidate(self, candidate):
+        def resolve_candidate(self, candidate=None, *args, **kwargs):
             raise NotImplementedError
 
-        def close(self):
+        def close(self, *args, **kwargs):
             pass
 
         def __repr__(self):
@@ -141,9 +141,19 @@ FIXED_TIME = "2026-01-02 03:04:05.678901"
 
 
 class _FakeDatetimeModule:
+    import datetime as _real
+    # everything of the real module but the clock (timezone, timedelta, UTC ...: a harmless change may mention them)
+    timezone, timedelta, date, time, tzinfo, MINYEAR, MAXYEAR = (_real.timezone, _real.timedelta, _real.date, _real.time,
+                                                                 _real.tzinfo, _real.MINYEAR, _real.MAXYEAR)
+    UTC = _real.timezone.utc
+
     class datetime:  # noqa: N801
         @staticmethod
-        def utcnow():
+        def utcnow(*args, **kwargs):
+            return FIXED_TIME
+
+        @staticmethod
+        def now(*args, **kwargs):     # (another spelling of "the current time" the code may switch to)
             return FIXED_TIME
 
 
@@ -335,9 +345,9 @@ def observe_view(R, coll, roots, rng) -> List[Dict[str, Any]]:
             continue
         calls: List[Any] = []
 
-        def hook(req, rnode, _calls=calls):
-            _calls.append((req, rnode))
-            return orig(req, rnode)
+        def hook(*args, _calls=calls, **kwargs):     # forwards the call as the code spelled it
+            _calls.append((common.arg_of(orig, args, kwargs, "req", pos=0), common.arg_of(orig, args, kwargs, "node", pos=1)))
+            return orig(*args, **kwargs)
         R.dists._process_constraint_req = hook
         try:
             R.dists.build_explanation(node)
@@ -515,12 +525,16 @@ def real_load(R, text: str, path: str) -> Dict[str, Any]:
     cls = R.solution.SolutionRepository
     orig = cls._add_sources
 
-    def hook(self, req, sources, url=None, dist_hash=None):
-        sources = list(sources)
+    def hook(self, *args, **kwargs):     # reads the arguments by the original's parameter names, forwards all of them
+        b = common.bound_call(orig, (self,) + args, kwargs)
+        if b is None or "req" not in b.arguments or "sources" not in b.arguments:
+            return orig(self, *args, **kwargs)
+        req, url, dist_hash = b.arguments["req"], b.arguments.get("url"), b.arguments.get("dist_hash")
+        sources = b.arguments["sources"] = list(b.arguments["sources"])     # (possibly a one-shot iterator)
         trace_sources.append(sources)
         trace.append({"name": req.name, "specs": [v for _, v in req.specs], "n": len(sources),
                       "srcnames": [s.split(" ", 1)[0] for s in sources], "url": url, "hash": dist_hash})
-        return orig(self, req, sources, url=url, dist_hash=dist_hash)
+        return orig(*b.args, **b.kwargs)
     cls._add_sources = hook
     R.utils.parse_requirement.cache_clear()
     try:
@@ -529,6 +543,7 @@ def real_load(R, text: str, path: str) -> Dict[str, Any]:
         except RecursionError:
             return {"status": "Diverged", "trace": trace}
         except Exception as ex:  # noqa: BLE001
+            common.reraise_harness_fault(ex)     # (also when the loader re-raised the hook's own error as its ValueError)
             return {"status": exc_class(R, ex), "trace": trace, "last_sources": trace_sources[-1] if trace_sources else None}
     finally:
         cls._add_sources = orig
@@ -825,6 +840,7 @@ def correspondence(ctx: Ctx) -> None:
             try:
                 text = real_write(R, coll, roots, root_infos, repo, multi, hashes, urls, annotate)
             except Exception as ex:  # noqa: BLE001
+                common.reraise_harness_fault(ex)     # the fake clock / fake repositories are the harness's
                 ctx.count("writer-exception:" + type(ex).__name__)
                 continue
             o = model_opts(R, g, list(repo), multi, hashes, urls, annotate, view)
